@@ -621,13 +621,16 @@ func (f *fragment) row(rowID uint64) *Row {
 // (updating the cache).
 func (f *fragment) unprotectedRow(rowID uint64) *Row {
 	r, ok := f.rowCache.Fetch(rowID)
-	if ok && r != nil {
-		return r
+	if !ok || r == nil {
+		r = f.rowFromStorage(rowID)
+		f.rowCache.Add(rowID, r)
 	}
 
-	row := f.rowFromStorage(rowID)
-	f.rowCache.Add(rowID, row)
-	return row
+	// The cached Row is shared by every reader of this row. Hand out a
+	// distinct Row over the same (read-only, copy-on-write) segments, so
+	// that a caller merging into its row or setting bits on it does not
+	// alter what the next reader gets.
+	return &Row{segments: append([]rowSegment(nil), r.segments...)}
 }
 
 // rowFromStorage clones a row data out of fragment storage and returns it as a
@@ -646,7 +649,7 @@ func (f *fragment) rowFromStorage(rowID uint64) *Row {
 		segments: []rowSegment{{
 			data:     data,
 			shard:    f.shard,
-			writable: true,
+			writable: false, // this Row is cached and shared, so it must be read only
 		}},
 	}
 	row.invalidateCount()
